@@ -116,12 +116,13 @@ def main(tier):
                 "axis longer than 1; distinct by the whole chain;  plus one vmap / replacement case per layer or model kind")
     insts = instances(tier)
     jobs = [dict(module_path=MODULE, cfg=tlc.make_cfg(constants=c, invariants=["Emit"], constraint="InOrder"),
-                 constants=c, coverage=True, workers=6, timeout=6000) for c in insts]
+                 constants=c, coverage=False, workers=6, timeout=6000) for c in insts]
     behaviours = []
     for r in tlc.run_many(jobs, parallel=3):
         chk.add_tlc(r, vacuity_actions=("New", "ActOp"))
         behaviours += [c["hist"] for c in r.cases]
     chk.exhaustive = True
+    core.require_ops(behaviours, ["Act", "NormSq", "AvgPool", "Component", "ImagesRT", "Expand"])
     for fails, n in core.pmap(storereplay.replay_chunk, core.shards(behaviours, 64)):
         chk.evaluations += n
         chk.traces += n
